@@ -137,7 +137,15 @@ fn prelude() -> String {
     let mut p = PRELUDE.to_string();
     for sh in shapes() {
         p.push_str(&format!("{} = ({}) => [{}]\n", sh.name, sh.params, sh.names.join(", ")));
-        let second = sh.names.get(1).cloned().unwrap_or_else(|| "0".into());
+        // the expression that denotes the second positional argument inside the function
+        let fixed = sh.names.iter().filter(|n| n.as_str() != "z").count();
+        let second = if fixed >= 2 {
+            sh.names[1].clone()
+        } else if sh.names.iter().any(|n| n == "z") {
+            format!("z[{}]", 1 - fixed)
+        } else {
+            "0".to_string()
+        };
         p.push_str(&format!("p{} = ({}) => typeof({}) == \"number\"\n", sh.name, sh.params, second));
     }
     p
